@@ -72,6 +72,7 @@ pub fn profile(id: &str) -> Option<Profile> {
             (Kind::Engine, 8000, 600_000)
         }
         "C07" => {
+            g.growth_pct = 2;
             g.par_pct = 80;
             g.max_clients = 8;
             g.max_ops_per_client = 4;
@@ -116,6 +117,12 @@ pub fn profile(id: &str) -> Option<Profile> {
         "C11" => {
             g.op_weights = [30, 10, 40, 8, 2, 5, 0, 0, 3];
             g.hot_clusters = 5;
+            // overlapping discards from several tasks, with flushes and
+            // writes around them (no discard shares a cluster with a write
+            // of another client: that race is finding KF02)
+            g.par_pct = 20;
+            g.max_clients = 4;
+            g.racy_discard_pct = 0;
             o.need_flush = false;
             (Kind::Engine, 5000, 200_000)
         }
@@ -127,6 +134,7 @@ pub fn profile(id: &str) -> Option<Profile> {
             (Kind::Engine, 4000, 100_000)
         }
         "C16" => {
+            g.growth_pct = 4;
             g.allow_big_bs = true;
             g.force_compressed = false;
             g.op_weights = [40, 25, 12, 8, 3, 6, 1, 0, 3];
